@@ -2300,7 +2300,9 @@ def _dijkstra_loop(ctx, modname, fn0, F, Q, loop, item, need_pred=True):
             hcalls = [t_ for t_ in hterms if isinstance(t_, ast.Call) and isinstance(t_.func, ast.Name) and len(t_.args) == 1 and isinstance(t_.args[0], ast.Name)
                       and F.root(t_.args[0].id, c) == F.root(nv, c)]
             rest_ = [t_ for t_ in hterms if t_ not in hcalls]
-            if len(hcalls) == 1 and len(rest_) == 1 and (is_lbl(rest_[0], nv, c) or is_lbl(F.resolve(rest_[0], c, keep=keep), nv, c)):
+            if len(hcalls) == 1 and len(rest_) == 1 and (is_lbl(rest_[0], nv, c) or is_lbl(F.resolve(rest_[0], c, keep=keep), nv, c)
+                                                         or (isinstance(rest_[0], ast.Name) and rest_[0].id in mirrors)
+                                                         or (cres is not None and hr.same(F.resolve(rest_[0], c, keep=keep), cres))):
                 hname = hcalls[0].func.id
                 binds_ = sk.callable_bindings(F.fn).get(hname, [])
                 verdicts = []
@@ -2408,8 +2410,12 @@ def _dijkstra_loop(ctx, modname, fn0, F, Q, loop, item, need_pred=True):
     for c in pre_push:
         for st, tg, val in pre_lab:
             cv = order.fold_const(val)
+            pr0_ = c.args[1]
+            # A*: the start may be queued with its heuristic value h(start); the priority of the only entry of the queue does not matter
+            h_seed = isinstance(pr0_, ast.Call) and isinstance(pr0_.func, ast.Name) and len(pr0_.args) == 1 and not pr0_.keywords \
+                and hr.same(pr0_.args[0], c.args[0]) and pr0_.func.id in sk.callable_bindings(F.fn) and len(pre_push) == 1
             if hr.same(F.resolve(tg.slice, st), F.resolve(c.args[0], c)) and cv is not None and cv != float("inf") and cv == cv \
-                    and order.fold_const(c.args[1]) is not None:
+                    and (order.fold_const(pr0_) is not None or h_seed):
                 ok_init = True
                 roles["start"] = c.args[0]
     seed_mismatch = None
